@@ -34,7 +34,7 @@ PLAN = {
     "building": {"quick": [(1, 1, 0), (2, 2, 0), (3, 3, 150), (4, 4, 60)], "thorough": [(1, 1, 0), (2, 2, 0), (3, 3, 6000), (4, 4, 3000)]},
     "doppelblock": {"quick": [(3, 3, 0), (4, 4, 150)], "thorough": [(3, 3, 0), (4, 4, 6000)]},
     "fillomino": {"quick": [(1, 3, 0), (3, 1, 0), (2, 3, 150), (3, 3, 80)], "thorough": [(1, 1, 0), (1, 3, 0), (3, 1, 0), (2, 2, 0), (2, 3, 6000), (3, 2, 3000), (3, 3, 4000)]},
-    "view": {"quick": [(1, 3, 0), (3, 1, 0), (2, 3, 150), (3, 3, 80)], "thorough": [(1, 3, 0), (3, 1, 0), (2, 2, 0), (2, 3, 0), (3, 2, 0), (3, 3, 6000)]},
+    "view": {"quick": [(1, 3, 0), (3, 1, 0), (2, 3, 150), (3, 3, 80), (4, 4, 200)], "thorough": [(1, 3, 0), (3, 1, 0), (2, 2, 0), (2, 3, 0), (3, 2, 0), (3, 3, 6000)]},
     "geradeweg": {"quick": [(2, 2, 0), (2, 3, 150), (3, 3, 100)], "thorough": [(2, 2, 0), (2, 3, 0), (3, 2, 0), (3, 3, 6000), (3, 4, 1500)]},
     "castle_wall": {"quick": [(2, 2, 200), (2, 3, 150), (3, 3, 100)], "thorough": [(2, 2, 0), (2, 3, 8000), (3, 2, 4000), (3, 3, 4000)]},
     "compass": {"quick": [(1, 3, 150), (2, 2, 150), (2, 3, 120)], "thorough": [(1, 3, 0), (3, 1, 4000), (2, 2, 6000), (2, 3, 6000), (3, 2, 3000), (3, 3, 1500)]},
